@@ -12,8 +12,11 @@
 (*   new chunk i, len = its clipped length:                                 *)
 (*     part A   dest[0 : h)   <- Down(oldchunk(k*i))                        *)
 (*     part B   dest[h : len) <- Down(oldchunk(k*i + 1))      if len > h    *)
-(* NumPy slice assignment: the slot is clipped to the buffer; lengths must  *)
-(* be equal, or the source has length 1 (broadcast); otherwise ValueError.  *)
+(* Slice assignment: the slot is clipped to the buffer.  Deviation switch    *)
+(* AssignRule: "strict" (conforming, the code since aaf61b3: fill() raises   *)
+(* ValueError unless the shapes are equal) | "numpy" (plain NumPy            *)
+(* assignment: lengths equal, or the source has length 1 and is BROADCAST,   *)
+(* otherwise ValueError - the code before the fix).                          *)
 (* A source chunk beyond the old grid cannot be read -> error.              *)
 (* h = 0 (o = 1, f = 2) -> ZeroDivisionError.                               *)
 (*                                                                          *)
@@ -39,6 +42,8 @@
 (* is therefore copied - identical to halving under edge padding.  (2) An   *)
 (* exception on a pair whose outcome is Error is what the property asks.    *)
 EXTENDS Naturals, Sequences, SequencesExt, FiniteSets, TLC
+
+CONSTANT AssignRule       \* "strict" | "numpy"
 
 Pad == 1000000            \* padding marker inside a provenance set
 Unwritten == {2000000}    \* provenance of a never-assigned voxel
@@ -85,7 +90,7 @@ CopyPartInto(c, dest, lo, hi, j) ==
           THEN [ok |-> TRUE, why |-> "",
                 dest |-> [t \in 1..Len(dest) |->
                             IF t > lo /\ t <= hi THEN src[t - lo] ELSE dest[t]]]
-          ELSE IF Len(src) = 1
+          ELSE IF Len(src) = 1 /\ AssignRule = "numpy"
           THEN [ok |-> TRUE, why |-> "broadcast",
                 dest |-> [t \in 1..Len(dest) |->
                             IF t > lo /\ t <= hi THEN src[1] ELSE dest[t]]]
@@ -140,7 +145,7 @@ OutcomeCF(size, o, n, f) ==
      ELSE IF n < h THEN (IF N <= n THEN "Correct" ELSE "Error")
      ELSE \* n >= 4h: a new chunk needs more than two old chunks
           IF N <= 2 * h THEN "Correct"
-          ELSE IF h = 1 THEN "SilentWrong" ELSE "Error"
+          ELSE IF h = 1 /\ AssignRule = "numpy" THEN "SilentWrong" ELSE "Error"
 
 IsPow2(x) == x \in {1, 2, 4, 8, 16, 32, 64, 128, 256, 512, 1024, 2048, 4096, 8192,
                     16384, 32768, 65536, 131072, 262144, 524288, 1048576, 2097152,
@@ -231,7 +236,8 @@ NoUnwritten == part = "done" => \A v \in 1..Len(level) : level[v] # Unwritten
 IntendedCorrect == Intended(cfg) => Outcome(cfg) = "Correct"
 ClosedForm == part = "begin" /\ i = 0 => ClosedFormAgrees(cfg)
 ValueLevelInv == part = "done" => ValueLevel(cfg)
-\* the property on the WHOLE pair space - known to fail (deviation): pairs
-\* with half chunk 1 and new chunk >= 4 are assembled by length-1 broadcast
+\* the property on the WHOLE pair space: holds with AssignRule = "strict";
+\* fails with "numpy" (pairs with half chunk 1 and new chunk >= 4 are
+\* assembled by length-1 broadcast)
 NoSilentWrong == part = "done" => Outcome(cfg) # "SilentWrong"
 =============================================================================
